@@ -388,11 +388,12 @@ func c12Run(t *testing.T, p c12Plan) (res vfResult) {
 // counts as idle - so the wait is a bounded number of yields instead.
 func c12Settle(r *Router, sc *vfSched) (quiescent bool) {
 	for spins := 0; spins < 200000; spins++ {
-		// An actor released from snapshot.begin is on its way to the snapshot lock: it gets it and parks at
-		// snapshot.listed, or it queues behind a holder that is parked. While there is such an actor the harness must
-		// not block (synctest.Wait, a sleep): a goroutine waiting for a mutex is never idle in the bubble's eyes, and
-		// the holder only moves when the harness releases it.
-		if !sc.releasedFrom("snapshot.begin") {
+		// An actor released from a snapshot point is on its way to the next one (or to the end of its command), and
+		// somewhere on that way is the snapshot lock: it gets it, or it queues behind a holder that is parked. While
+		// there is such an actor the harness must not block (synctest.Wait, a sleep): a goroutine waiting for a mutex
+		// is never idle in the bubble's eyes, and the holder only moves when the harness releases it. (Nothing between
+		// two snapshot points, or after the last one, needs virtual time to pass.)
+		if !sc.releasedFrom("") {
 			synctest.Wait()
 			return true
 		}
